@@ -62,7 +62,7 @@ def run(ctx):
     cfg = "MCRanking_quick.cfg" if quick else "MCRanking_forks.cfg"
     ctx.tlc_exhaustive("MCRanking", cfg, timeout=1200, dump=dot)
     if not quick:
-        for c in ("MCRanking_quick.cfg", "MCRanking_wide.cfg", "MCRanking_wide3.cfg"):
+        for c in ("MCRanking_wide.cfg", "MCRanking_wide3.cfg"):
             ctx.tlc_exhaustive("MCRanking", c, timeout=1200)
     # ---- ... and each named deviation alone violates it (negative controls)
     def neg(i):
@@ -79,8 +79,17 @@ def run(ctx):
     files, summ = ctx.replay("ranking", graph=dot, shards=16, maxlen=60, timeout=1800,
                              env={"VERIF_RANKING_K": "2", "VERIF_RANKING_TABLE": tables[ctx.seed % 2]})
     ok = validate_parallel(ctx, files, "state-graph replay", groups=4 if quick else 12)
-    ctx.extra["distinct_transitions_replayed"] = summ["graph_edges"] if ok else 0
-    ctx.extra["transitions_in_graph"] = summ["graph_edges"]
+    edges = summ["graph_edges"]
+    if not quick:
+        # the linear-chain graph with every kind of account touch (register+unregister inside one block, profile / balance changes)
+        dot2 = ctx.path("ranking_touch.dot")
+        ctx.tlc_exhaustive("MCRanking", "MCRanking_touch.cfg", timeout=1200, dump=dot2)
+        f3, s3 = ctx.replay("ranking", graph=dot2, shards=16, maxlen=60, timeout=1800, name="ranking_touch",
+                            env={"VERIF_RANKING_K": "2", "VERIF_RANKING_TABLE": tables[(ctx.seed + 1) % 2]})
+        ok = validate_parallel(ctx, f3, "state-graph replay (touch)", groups=8) and ok
+        edges += s3["graph_edges"]
+    ctx.extra["distinct_transitions_replayed"] = edges if ok else 0
+    ctx.extra["transitions_in_graph"] = edges
     ctx.cov["samples"] = summ["samples"]
     ctx.cov["exhaustive"] = True
     # ---- bigger configurations (forks up to 4 live blocks, restart with unconfirmed blocks, 4-5 candidates): simulation
@@ -92,7 +101,7 @@ def run(ctx):
                            env={"VERIF_RANKING_K": str(k), "VERIF_RANKING_TABLE": tables[(ctx.seed + 1) % 2]})
         validate_parallel(ctx, f2, "simulated walks " + cfg, groups=2 if quick else 8)
     # ---- seeded random histories, bigger universes
-    n = 40 if quick else 400
+    n = 25 if quick else 400
 
     def rnd(i):
         out = ctx.path("traces", "rand.%d.ndjson" % i)
@@ -102,9 +111,22 @@ def run(ctx):
     with concurrent.futures.ThreadPoolExecutor(8) as ex:
         rfiles = list(ex.map(rnd, range(4 if quick else 8)))
     validate_parallel(ctx, rfiles, "random histories", groups=4 if quick else 8)
+    # ---- engine level: real nodes, real transactions, term snapshot block, stabilisation, restart
+    nn = 40 if quick else 300
+
+    def nod(i):
+        out = ctx.path("traces", "node.%d.ndjson" % i)
+        ctx.drive("ranking-node", ["-out", out, "-seed", ctx.seed * 1000 + i, "-n", nn, "-snaptx", 50],
+                  env={"VERIF_SCRATCH_DIR": ctx.path("work", "node.%d" % i, ".keep")[:-6]}, timeout=1800)
+        return out
+    with concurrent.futures.ThreadPoolExecutor(8) as ex:
+        nfiles = list(ex.map(nod, range(2 if quick else 8)))
+    validate_parallel(ctx, nfiles, "real nodes, term snapshot", groups=2 if quick else 8)
     ctx.assumptions += [
         "a registered candidate has at least one vote (deposit votes: params.MinCandidateDeposit >= params.DepositExchangeRate) and an "
         "unregistered candidate can never register again (candidate_vote_tx.go)",
         "model-checked universe: 3 candidates, list size 2, votes 0..2, up to 3 live blocks (complete reachable graph, no step bound); "
         "4 candidates / list size 3 on a linear chain; simulation and random histories up to 8 candidates, list size 4, 6 live blocks",
-        "the database is closed quiescent before a restart (crash behaviour is C08)"]
+        "the database is closed quiescent before a restart (crash behaviour is C08)",
+        "engine level: TermDuration 4, InterimDuration 1, 3 genesis deputies + 4 further candidates, list size 4, heights 1..5 (the chain stops "
+        "before the new term signs); no account both moves balance and votes inside one block (that tally defect is C11's)"]
